@@ -9,7 +9,13 @@ CLAIMED = {
                 "step equals a hand-written RV32IM reference (Spec/RV32IM.v) and lift it to runs of any length by induction "
                 "(plus bit-level readings of the shifts, sign extension of immediates, x0/32-bit invariants, justification of the "
                 "C-string fuel); the model is tied to /repo by per-mnemonic grids and random programs compared step by step.",
-        "note": NOTE_COMMON + "Float text of ecall 2 is a harness oracle; CSR/FENCE/EBREAK excluded by the property.",
+        "note": NOTE_COMMON + "Float text of ecall 2 is a harness oracle; CSR/FENCE/EBREAK excluded by the property. "
+                "Props/C01FloatDiv.v additionally proves (Flocq) that Python's int(left / right) of DIV/REM - IEEE binary64 division, "
+                "round to nearest even, truncation - equals the model's Z.quot / Z.rem for all |operands| <= 2^31 (real-number statement "
+                "and the computable IEEE form b64_div); these eight theorems rest on the standard library's axioms "
+                "ClassicalDedekindReals.sig_forall_dec, ClassicalDedekindReals.sig_not_dec, FunctionalExtensionality."
+                "functional_extensionality_dep and Classical_Prop.classic (Flocq's `round` itself depends on them); every other "
+                "theorem is closed under the global context.",
         "technique": "Coq proof of model = ISA reference + differential correspondence model vs implementation",
     },
     "C10": {
